@@ -4,7 +4,7 @@
 //! impl line : `<id> <class> req=<ok|BIG:n> reser=<ok|err|panic|-> <content>`
 //!   class    : `ok`, `err`, `panic` (`abort` is written by `run-isolated` when the process dies)
 //!   req      : largest single allocation request while parsing, `ok` when <= 256*len + 64 KiB
-//!   reser    : outcome class of re-serialising an accepted value
+//!   reser    : outcome class of re-serialising an accepted value (`np` = "did not panic" when the content is dirty)
 //!   content  : `clean <canonical dump>` when every decoded string lies in the sub-codec alphabet and
 //!              the input holds no BOM-like byte pair, else `dirty <coarse counts>`
 //!
@@ -564,13 +564,14 @@ pub fn run_line(_st: &mut super::State, line: &str) -> String {
     match r {
         Err(_) => format!("{} panic req={} reser=-", id, req),
         Ok((class, dump, reser)) => {
-            let content = match dump {
-                None => String::new(),
+            // when some decoded string lies outside the model's sub-codec, only "no panic" is compared
+            let (content, reser) = match dump {
+                None => (String::new(), reser),
                 Some(d) => {
                     if d.clean && !taint {
-                        format!(" clean {}", d.text)
+                        (format!(" clean {}", d.text), reser)
                     } else {
-                        format!(" dirty {}", d.coarse)
+                        (format!(" dirty {}", d.coarse), if reser == "panic" { reser } else { "np".to_string() })
                     }
                 }
             };
